@@ -60,6 +60,26 @@ func NewIOReader(reader io.Reader) ro.Observable[[]byte] {
 	})
 }
 
+// readLine returns the next line of r, without its end-of-line bytes, in a slice of its
+// own. ReadLine hands out a line that does not fit the reader's buffer in fragments
+// (isPrefix): they are joined here.
+func readLine(r *bufio.Reader) ([]byte, error) {
+	line := []byte{}
+
+	for {
+		fragment, isPrefix, err := r.ReadLine()
+		if err != nil {
+			return nil, err
+		}
+
+		line = append(line, fragment...)
+
+		if !isPrefix {
+			return line, nil
+		}
+	}
+}
+
 // NewIOReaderLine creates an observable that reads lines from an io.Reader.
 // Play: https://go.dev/play/p/oMv2jYVSLqd
 func NewIOReaderLine(reader io.Reader) ro.Observable[[]byte] {
@@ -67,7 +87,7 @@ func NewIOReaderLine(reader io.Reader) ro.Observable[[]byte] {
 		r := bufio.NewReader(reader)
 
 		for {
-			lines, _, err := r.ReadLine()
+			line, err := readLine(r)
 			if err != nil {
 				if err == io.EOF {
 					destination.CompleteWithContext(ctx)
@@ -77,9 +97,7 @@ func NewIOReaderLine(reader io.Reader) ro.Observable[[]byte] {
 				break
 			}
 
-			output := make([]byte, len(lines))
-			copy(output, lines)
-			destination.NextWithContext(ctx, output)
+			destination.NextWithContext(ctx, line)
 		}
 
 		return func() {
@@ -103,13 +121,16 @@ func NewStdReaderLine() ro.Observable[[]byte] {
 // NewPrompt creates an observable that reads user input after displaying a prompt.
 func NewPrompt(prompt string) ro.Observable[[]byte] {
 	return ro.NewUnsafeObservableWithContext(func(ctx context.Context, destination ro.Observer[[]byte]) ro.Teardown {
+		// One reader for all prompts: a reader per prompt would throw away what it has
+		// buffered beyond the line it returned.
+		reader := bufio.NewReader(os.Stdin)
+
 		for {
 			// Print the prompt to stdout
 			os.Stdout.WriteString(prompt)
 
 			// Read from stdin
-			reader := bufio.NewReader(os.Stdin)
-			line, _, err := reader.ReadLine()
+			line, err := readLine(reader)
 			if err != nil {
 				if err == io.EOF {
 					break
